@@ -77,7 +77,13 @@ def run(ctx):
     si = ctx.fn('ProtocolState::apply_slow_start_initialization')
     ones = [m for m in prims.mutations(si) if m.kind == 'assign' and show(m.path).endswith('.slow_start_ack_value')]
     vals = sorted(show(m.rv) for m in ones)
-    ctx.ob(vals == ['0', '1', '1'], 'every operation is zeroed, then members of both ack tables get the value 1 (%s)' % vals, 'ss|values', loc=si.loc())
+    ctx.ob(vals == ['1', '1'], 'members of both ack tables get the value 1; a mark is never cleared while its operation exists (an operation interrupted earlier and still unresolved - e.g. after a connection attempt that failed before CONNACK - stays counted: defect 16) (%s)' % vals, 'ss|values', loc=si.loc())
+    zw = []
+    for v_ in F.fns_in(P):
+        for m_ in prims.mutations(v_):
+            if m_.kind == 'assign' and show(m_.path).endswith('.slow_start_ack_value') and show(m_.rv) != '1':
+                zw.append('%s := %s in %s' % (show(m_.path), show(m_.rv), short(v_.path)))
+    ctx.ob(not zw, 'no engine code resets the slow-start mark of an existing operation (%s)' % zw, 'ss|marks-persist', loc=si.loc())
     srcs = set()
     for c in si.calls('Iterator::collect', 'collect'):
         srcs.add(show(c.arg(0)))
